@@ -177,6 +177,40 @@ def r_wait_panic(rep, prog):
     rep.check(True, rule, "scan", "%d wait sites reachable from the API scanned" % n_wait)
 
 
+def r_spin_wait(rep, prog):
+    """util::spin_wait(n, cond) is the only waiting primitive: it reports success exactly when cond() returned true and gives up
+    after n polls (bounded). A negated test makes every waiter proceed before the condition holds."""
+    rule = "R-SPIN-WAIT"
+    rep.rule(rule, "spin_wait returns true only after cond() returned true, false after at most n polls")
+    b = prog.body("llfree::util::spin_wait")
+    if b is None:
+        rep.check(True, rule, "spin_wait", "no spin_wait primitive in this tree")
+        return
+    rep.saw(b.name)
+    tm = T.Terms(b, prog)
+    from props.c10 import loop_info, iter_loop_header
+    ps = PathSens(b, prog, track=lambda n: bool(n) and n.endswith("ops::function::FnMut::call_mut"))
+    conds = [bi for bi, t in b.calls() if (callee_name(t["callee"]) or "").endswith("ops::function::FnMut::call_mut")]
+    good = bool(conds)
+    detail = "no cond() call"
+    for rn in ps.return_nodes():
+        env = ps.term_env_of(rn)
+        rv = env.get(("v", 0))
+        last = [env.get(("c", c)) for c in conds]
+        if rv == 1 and not any(x == 1 for x in last):
+            good, detail = False, "returns true on a path where cond() was not true"
+        if rv is None:
+            good, detail = False, "return value not decided on a path"
+    loops = loop_info(b)
+    bounded = len(loops) == 1
+    if bounded:
+        info = iter_loop_header(b, tm, loops[0][0])
+        rng = [x for x in T.walk(info[0][2][0]) if x[0] == "agg" and x[1].startswith("adt:core::ops::range::Range::Range")] if info else []
+        bounded = bool(rng) and T.const_val(rng[0][2][0]) == 0 and T.canon(rng[0][2][1]) == ("p", "n")
+    rep.check(good, rule, "spin_wait|result", "true iff the last cond() was true", "spin_wait: " + detail, b.span)
+    rep.check(bounded, rule, "spin_wait|bounded", "polls at most n times (for _ in 0..n)", "spin_wait does not poll exactly 0..n times", b.span)
+
+
 def run(rep, programs):
     prog = programs["core"]
     multicas.check_undo_range(rep, prog, "R-UNDO-RANGE", lib.need_body)
@@ -184,6 +218,7 @@ def run(rep, programs):
     r_split_order(rep, prog)
     c01.r_blind_writes(rep, prog)
     r_wait_panic(rep, prog)
+    r_spin_wait(rep, prog)
     # counters stay consistent with the bitfields (otherwise the counter assertions in Tree::put / unreserve fire)
     from props import c04, c15
     c04.r_balance(rep, prog)
